@@ -568,6 +568,7 @@ func (p *policy) checkConstraints() error {
 					p.reserved, isolated)
 			}
 			log.Warnf("reserved CPU %s is isolated", p.reserved)
+			p.isolated = p.isolated.Difference(p.reserved)
 		}
 
 	case cfgapi.AmountQuantity:
